@@ -68,6 +68,9 @@ def link (dw : DW) (k : Nat) (a b : Obj) (x : Option Obj) : WRes × DW := dw.ofO
 def unlink (dw : DW) (k : Nat) (a b : Obj) : WRes × DW := dw.ofO (dw.w.unlink k a b)
 def deleteNode (dw : DW) (k : Nat) (a : Obj) : WRes × DW := dw.ofO (dw.w.deleteNode k a)
 
+/-- `setRoot(nodeObject)` (AssociationGraphImplObserver.h:718, inherited) -/
+def setRootObj (dw : DW) (k : Nat) (a : Obj) : WRes × DW := dw.ofO (dw.w.setRootObj k a)
+
 /-- the ids of two node objects; `none` = `getNodeGraphid` throws -/
 def ids2 (dw : DW) (k : Nat) (a b : Obj) : Option (Option (Nat × Nat)) :=
   match dw.w.getObs k with
@@ -218,6 +221,7 @@ inductive DWOp where
   | rootAt (k : Nat) (a : Obj)
   | isValid | isRooted
   | copy (j k : Nat) | clone (j k : Nat) | assign (j k : Nat)
+  | setRoot (k : Nat) (a : Obj)
 deriving Repr
 
 namespace DW
@@ -238,6 +242,7 @@ def step (dw : DW) : DWOp → DW
   | .copy j k => (dw.copyObs j k).2
   | .clone j k => (dw.cloneObs j k).2
   | .assign j k => (dw.assignObs j k).2
+  | .setRoot k a => (dw.setRootObj k a).2
 def run (dw : DW) (ops : List DWOp) : DW := ops.foldl step dw
 end DW
 
